@@ -25,6 +25,7 @@ type Inode struct {
 	Kids  map[string]*Inode
 	Data  []byte
 	Alloc int64 // fallocate'd size (may exceed len(Data))
+	Bulk  int64 // bytes of abstract bulk content beyond Data (big files whose bytes are not modelled one by one)
 	Xattr map[string][]byte
 	Nlink int
 	UID   int
@@ -35,10 +36,11 @@ type Inode struct {
 }
 
 func (n *Inode) Size() int64 {
-	if n.Alloc > int64(len(n.Data)) {
+	sz := int64(len(n.Data)) + n.Bulk
+	if n.Alloc > sz {
 		return n.Alloc
 	}
-	return int64(len(n.Data))
+	return sz
 }
 
 type openFile struct {
@@ -629,6 +631,30 @@ func FileSeek(f *os.File, offset int64, whence int) (int64, error) {
 
 // FileWriteTo / FileReadFrom: io.Copy prefers these on *os.File.
 func FileWriteTo(f *os.File, w io.Writer) (int64, error) {
+	// file-to-file copies move content wholesale (bulk content cannot be read byte by byte)
+	if dst, ok := w.(*os.File); ok {
+		if d := M.files[dst]; d != nil {
+			src := of(f)
+			M.step("copy", d.Path)
+			rest := src.Node.Data
+			if src.Pos < len(rest) {
+				rest = rest[src.Pos:]
+			} else {
+				rest = nil
+			}
+			d.Node.Data = append(d.Node.Data, rest...)
+			d.Node.Bulk += src.Node.Bulk
+			d.Pos = len(d.Node.Data)
+			n := int64(len(rest)) + src.Node.Bulk
+			src.Pos = len(src.Node.Data)
+			M.note("read", src.Path, src.Node, "read")
+			M.note("write", d.Path, d.Node, "write")
+			return n, nil
+		}
+	}
+	if of(f).Node.Bulk > 0 {
+		panic("zzvfos: byte-wise read of a file with bulk content")
+	}
 	var total int64
 	buf := make([]byte, 8)
 	for {
